@@ -205,7 +205,7 @@ pub fn parse(data: &str) -> Result<KyGElements, Error> {
                         },
                     );
                 }
-                _ => println!("Desconocido"),
+                _ => log::warn!("Línea de datos de elemento desconocido en archivo .kyg: {}", line),
             };
         }
         // Ganancias solares de hueco
